@@ -144,6 +144,10 @@ def conn_case(draw, maxn):
     else:
         dv_tol = draw(st.floats(0, 10)) * vsc
         bal_tol = draw(st.floats(0, 3)) * vsc
+    # ConnectionOptions only requires both tolerances to be positive: ballistic_tol > delta_v_tol is legitimate
+    if dvs and draw(st.integers(0, 3)) == 0:
+        dv_tol = draw(st.sampled_from(dvs)) * draw(st.sampled_from([1.0, 0.5, 1 - 2 ** -50]))
+        bal_tol = dv_tol * draw(st.sampled_from([2.0, 10.0, 1e3])) + draw(st.sampled_from([0.0, vsc]))
     with_idx = draw(st.booleans())
     ti_u = [draw(st.integers(0, 50)) for _ in pu] if with_idx else None
     ti_s = [draw(st.integers(0, 50)) for _ in ps] if with_idx else None
@@ -256,6 +260,8 @@ def eval_conn(case, ctx):
         if r.delta_v < last_dv:
             fails.append(("not-sorted", "delta_v sequence decreases: %.17g after %.17g" % (r.delta_v, last_dv)))
         last_dv = r.delta_v
+        if bal_tol > dv_tol:
+            interesting.add("bal_tol>dv_tol")
         for thr in (dv_tol, bal_tol):
             if abs(r.delta_v - thr) <= 1e-9 * max(thr, 1e-300):
                 interesting.add("dv-on-threshold")
